@@ -814,3 +814,52 @@ def mon_c01(scripts, stats):
             stats['mon_c01_accepted_via_handlers'] += 1
             if not expected_accept(sc, msg, att, attesters, thr):
                 yield sc, n, 'C01: %s accepted a message without a quorum of distinct enabled attesters in order (threshold %d)' % (ty, thr)
+
+
+# ---------------- C17 ----------------
+PENDING_KEY = b'pending-owner'.hex()
+
+
+def mon_c17(scripts, stats):
+    for sc, n, inp, cmd, ty, a, pre, obs in walk(scripts):
+        if cmd == 'ROUNDTRIP':
+            rt = obs.get('RT', [''])[0]
+            stats['mon_c17_roundtrips'] += 1
+            if rt == 'same':
+                continue
+            if rt.startswith('diff keys='):
+                keys = rt[len('diff keys='):].split(',')
+                if keys == [PENDING_KEY]:
+                    yield sc, n, 'C17: pending owner is not exported: export then import loses the pending-owner entry'
+                else:
+                    yield sc, n, 'C17: export then import does not reproduce the store (raw keys %s)' % ','.join(keys)[:300]
+            elif rt == 'panic':
+                # export/import panics exactly when a role slot is unset or the threshold is 0 (not reachable from a valid genesis)
+                st = state_of(pre)
+                if all(r in st['role'] for r in ('owner', 'attmgr', 'pauser', 'tokctl')) and st['num'].get('threshold') not in (None, '0'):
+                    yield sc, n, 'C17: export then import panicked on a complete state'
+        elif cmd == 'G-END':
+            stats['mon_c17_genesis'] += 1
+            # validation accepted => no two entries of a keyed list share a store key: the state after init has as
+            # many entries per collection as the genesis listed (nothing silently overwritten)
+            if obs.get('GV', [''])[0] == 'ok' and obs.get('GI', [''])[0] == 'ok':
+                listed = collections_of_genesis(sc, n)
+                st = state_of(obs.get('S', []))
+                for kind in ('attester', 'limit', 'pair', 'nonce', 'messenger'):
+                    if listed is not None and len(st[kind]) != listed[kind]:
+                        yield sc, n, 'C17: validation accepted a genesis whose %s list has %d entries but initialisation stored %d (an entry was silently overwritten)' % (kind, listed[kind], len(st[kind]))
+
+
+def collections_of_genesis(sc, n):
+    """count the G lines of the genesis block that ends at step n"""
+    pos = sc.step_pos.get(n)
+    if pos is None:
+        return None
+    cnt = {'attester': 0, 'limit': 0, 'pair': 0, 'nonce': 0, 'messenger': 0}
+    i = pos - 2
+    while i >= 0 and not sc.inputs[i].startswith('G-BEGIN'):
+        ws = sc.inputs[i].split(' ')
+        if ws[0] == 'G' and len(ws) > 1 and ws[1] in cnt:
+            cnt[ws[1]] += 1
+        i -= 1
+    return cnt
